@@ -462,6 +462,14 @@ func (c *cluster) deploy(n int, ckpt *snapshotpb.JobCheckpoint) error {
 	c.ks = partitioning.NewKeySpace(c.kgc, n)
 	var prevIDs []string
 	if c.reuse {
+		// Known finding D11 (C09/C15): a table object of an EARLIER incarnation that is collected later deletes "its" file
+		// by name - by then a file of the new database in the reused directory. The tables the previous incarnations
+		// compacted away are unreachable already: let the collector run their clean-ups BEFORE the directory is reused,
+		// so that this (timing dependent) hazard is not part of what the check observes.
+		for k := 0; k < 3; k++ {
+			runtime.GC()
+			time.Sleep(time.Millisecond)
+		}
 		// surviving workers keep their operator id, hence their DKV directory and `checkpoints` file
 		for _, a := range c.ops {
 			prevIDs = append(prevIDs, a.id)
